@@ -506,7 +506,10 @@ def write_evidence(prop, tier, base_seed, scen, batch, extra=None):
         'run_end_reasons': agg['ends'],
         'harness_errors': agg['errors'],
         'harness_timeouts': agg['timeouts'],
-        'violating_runs': agg['violating_runs'],
+        # (a sentence, not a count: how many runs carry the signature of a recorded finding depends on the base seed
+        # and says nothing about how much this run covered)
+        'runs_with_a_violation_signature': '%d of %d runs (own and other properties\' clauses, recorded findings '
+                                           'included)' % (agg['violating_runs'], agg['runs']),
         'violation_signatures': batch['viol_sigs'],
         'known_findings_hit': batch['known_hits'],
         'components': getattr(scen, 'COMPONENTS', {}),
